@@ -33,6 +33,8 @@ Definition init : st :=
 Inductive ev :=
 | LAppend
 | Step (send_ok recv_ok : bool)   (* one partition.replica call; the flags say whether Send / Recv of the stream succeed *)
+| StepAppendFail                  (* a partition.replica call whose message arrives, but the follower cannot append it
+                                     (I/O error when its log needs a new page): it keeps its log and answers -1 *)
 | Handshake                       (* IsReady + Connect without consuming *)
 | FollowerRestart | FollowerLoseLog
 | LeaderGC                        (* FanOutQueue.Sync + Queue.GC on the leader *)
@@ -92,6 +94,19 @@ Definition consume_send (s : st) (send_ok recv_ok : bool) : st :=
        c := seq; k := k'; ready := recv_ok; up := recv_ok; online := online s; pending := pending s; fresh := fresh s;
        fhigh := Z.max (fhigh s) fa'; hist := hist s; snap := snap s; dirty := dirty s |}.
 
+(* the message is delivered (or not, when the stream is down) and the follower does not append it, whether it rejects
+   the index or its append fails: nothing changes on the follower, the answer is not the sent index, the leader's
+   acknowledged position stays *)
+Definition consume_fail (s : st) : st :=
+  if negb (c s + 1 <=? la s) then s else
+  let seq := c s + 1 in
+  if negb ((lq s <? seq) && (seq <=? la s)) then
+    set_leader s (la s) (lq s) (lmsg s) seq (if k s + 1 =? seq then ack_to (k s) seq seq else k s) (ready s) (up s) (dirty s)
+  else if negb (up s) then
+    set_leader s (la s) (lq s) (lmsg s) seq (k s) false false (dirty s)
+  else
+    set_leader s (la s) (lq s) (lmsg s) seq (k s) true true (dirty s).
+
 Definition do_step (fixed : bool) (s : st) (send_ok recv_ok : bool) : st :=
   match ready_connect fixed s with
   | None => set_flags s (ready s) (up s) true
@@ -105,6 +120,12 @@ Definition step (fixed : bool) (s : st) (e : ev) : st :=
        c := c s; k := k s; ready := ready s; up := up s; online := online s; pending := pending s; fresh := S (fresh s);
        fhigh := fhigh s; hist := upd (hist s) (la s + 1) (Some (fresh s)); snap := snap s; dirty := dirty s |}
   | Step send_ok recv_ok => if pending s then s else do_step fixed s send_ok recv_ok
+  | StepAppendFail =>
+    if pending s then s else
+    match ready_connect fixed s with
+    | None => set_flags s (ready s) (up s) true
+    | Some s' => consume_fail s'
+    end
   | Handshake =>
     if pending s then s else
     match ready_connect fixed s with
